@@ -350,7 +350,19 @@ impl Prop for C13 {
         } else if k < 26 {
             let kf = rng.chance(1, 10);
             let (a, b, _) = gen_triples(rng, true, kf);
-            let (a, b) = if rng.chance(1, 6) { (vec![String::new(); a.len()], vec![String::new(); b.len()]) } else { (a, b) };
+            let (a, b) = if rng.chance(1, 6) {
+                (vec![String::new(); a.len()], vec![String::new(); b.len()])
+            } else if rng.chance(1, 3) {
+                // segmentation-sensitive stream: combining sequences, so that code-point and grapheme distances differ
+                const COMB: &[&str] = &["e\u{301}", "a\u{308}", "e", "a", "x", " ", "\u{301}"];
+                let mut mk = |n: usize| -> Vec<String> {
+                    (0..n).map(|_| (0..rng.below(6)).map(|_| *rng.pick(COMB)).collect::<String>()).collect()
+                };
+                let n = a.len();
+                (mk(n), mk(b.len()))
+            } else {
+                (a, b)
+            };
             build(2, vec![Val::b(rng.chance(1, 2)), Val::b(g)], vec![strs_val(&a), strs_val(&b)])
         } else if k < 60 {
             let kf = rng.chance(1, 20);
@@ -452,6 +464,19 @@ impl Prop for C13 {
                 }
                 if i.len() > 1 {
                     tags.push("multi".into());
+                }
+                if i.len() == p.len() && p.len() == t.len() && !i.is_empty() {
+                    let pp: Vec<String> = p.iter().map(|s| prep(s)).collect();
+                    if pp.iter().zip(t.iter()).all(|(a, b)| *a == prep(b)) {
+                        tags.push("pred=target".into());
+                    }
+                    if pp.iter().zip(i.iter()).all(|(a, b)| *a == prep(b)) {
+                        tags.push("pred=input".into());
+                    }
+                    // the D6 class: exactly one of input / prediction without words
+                    if f == 4 && pp.iter().zip(i.iter()).any(|(a, b)| a.is_empty() != prep(b).is_empty()) {
+                        tags.push("zero-words".into());
+                    }
                 }
                 let out = guard(move || {
                     if f == 3 {
